@@ -338,8 +338,9 @@ class C01(Property):
         out, step = await rig.gather(depth, events, imposed)
         ids: dict = {}
         line = lean_gather_line(depth, events, ids)
-        self._lines.append(line)
-        self._expect.append((render_real_out(out, ids), "exact" if imposed else "sets", dict(case, stage=stage, line=line)))
+        exp = (render_real_out(out, ids), "exact" if imposed else "sets", dict(case, stage=stage, line=line))
+        self._lines.append(line)       # (line, expectation) are appended together: a crash in between must not misalign them
+        self._expect.append(exp)
         return out
 
     async def _run_case(self, ctx: Ctx, rig: Rig, case: dict) -> None:
@@ -458,8 +459,9 @@ class C01(Property):
                       ("ts", next(t.value.name for t in gsz.token_list if isinstance(t, TerminationToken)))]
             ids: dict = {}
             line = lean_gather_line(1, events, ids)
+            exp = (render_real_out(list(g.get_output_port().token_list), ids), "sets", dict(case, stage=g.name, line=line[:300]))
             self._lines.append(line)
-            self._expect.append((render_real_out(list(g.get_output_port().token_list), ids), "sets", dict(case, stage=g.name, line=line[:300])))
+            self._expect.append(exp)
         ctx.case({"case": _brief(case), "out": [sd.untoken(t) for t in out][:2]},
                  ("pipeline", levels, repr(case["inputs"])[:300], case["oseed"]), f"pipeline-{levels}")
 
@@ -477,11 +479,12 @@ class C01(Property):
         if not (elems and isinstance(elems[-1], TerminationToken) and sizes and isinstance(sizes[-1], TerminationToken)):
             ctx.fail("scatter:no-termination", "scatter did not terminate its output ports", case)
         for t in inputs:
-            self._lines.append(f"scatter {t.tag} {len(t.value)}")
+            sline = f"scatter {t.tag} {len(t.value)}"
             # the real side of this line is what the real step emitted for this input
             mine = [e.tag for e in elems if not isinstance(e, TerminationToken) and e.tag.rsplit(".", 1)[0] == t.tag]
             msz = [s.value for s in sizes if not isinstance(s, TerminationToken) and s.tag == t.tag]
             real_line = (",".join(f"{tg}:{i}" for i, tg in enumerate(mine)) or "-") + f"|size={t.tag}:{msz[0] if msz else '?'}"
+            self._lines.append(sline)
             self._expect.append((real_line, "exact", dict(_brief(case), stage="scatter", input=t.tag)))
 
     def _monitor(self, ctx: Ctx, case: dict, out: list[Token], expected: list, check_status: bool = True) -> None:
